@@ -63,6 +63,10 @@ CHECKS["C15"] = ("shape rules for the product rule; constant folding of each rot
 CHECKS["C16"] = ("constant folding of every gate2zx entry as a closed ZX term in a reference algebra (standard interpretation, phases in full turns) compared for proportionality with tket reference matrices on sample phases; abstract execution of generator daggers",
     "Decides that each entry of zx.gate2zx (kets, bras, Rz, Rx, CRz, CRx, CU1, H, X, Y, Z, CZ, CX, scalars) denotes the gate up to a non-zero scalar with the right arity, that circuit2zx is the rigid functor qubit -> one wire, "
     "and that spiders / scalars / H dagger as the standard interpretation requires. Composites follow from functoriality (C04, C09).", TB, "DESIGN.md §4 C16")
+CHECKS["C12"] = ("layout/shape rules for the CQMap constructors, abstract evaluation of the swap network of CQMap.tensor on positional wire atoms, dispatch analysis of cqmap.Functor, a two-kind (CQ / Dim) inference over cqmap.py",
+    "Decides the c·q·q layouts of pure / measure / discard / encode / cups, the all-equal delta arity of measure, the wire routing of CQMap.tensor, the order and totality of the per-box dispatch with partner daggers, that every CQMap "
+    "constructor call passes the kind of type its callee reads, the Born rule on scalars, and the circuit-side plumbing (is_mixed, init_and_discard, get_counts, measure). Trace preservation and numeric agreement of whole circuits are not decided.",
+    TB, "DESIGN.md §4 C12")
 NOT_YET = "check not built yet in this round (static rules designed in DESIGN.md §4; will be claimed when the rule module lands)"
 NOT_APPLICABLE = {("C%02d" % i): NOT_YET for i in range(1, 21) if ("C%02d" % i) not in CHECKS}
 NOTES = ("All checks are static analyses of /repo/discopy's source (python -m sa.check <id>); exit 0 / 1 (VIOLATION) / 2 (ANALYSIS-ERROR). "
